@@ -142,7 +142,7 @@ func permutations(n int) [][]int {
 }
 
 func runC08(c *fw.Ctx) {
-	c.Rule = "(A) synthesised update multisets: for each kind (session, subscription, retained) and 3 key-pair variants (same key / neighbouring keys: same filter two sessions, a vs a/b, a/+ vs a/b; sessions sharing a client id; topics t vs t/u), every list of n<=4 (quick) / n<=5 (thorough, first variant) add/remove updates over the two keys with distinct timestamps x all n! delivery orders x re-delivery of every prefix x every split of the sequence into StateBroadcastEvent batches, each schedule delivered to a fresh replica through NotifyMsg and compared with the reference LWW set - enumerated completely. (B) seeded scenarios in which three origin nodes whose clocks are offset by -10 s/0/+10 s (hook H3) issue 20-60 real Create/Delete/Set calls with partial gossip between them; their actual broadcasts are then delivered in shuffled, duplicated, batched schedules to followers; origins (after receiving everything) and followers must equal the LWW reference computed from the broadcast entries. distinct = (kind, variant, update list, schedule) / (scenario, schedule); non-trivial = >=2 updates touch the same key"
+	c.Rule = "(A) synthesised update multisets: for each kind (session, subscription, retained) and 3 key-pair variants (same key / neighbouring keys: same filter two sessions, a vs a/b, a/+ vs a/b; sessions sharing a client id; topics t vs t/u), every list of n<=4 (quick) / n<=5 (thorough, first variant) add/remove updates over the two keys with distinct timestamps x all n! delivery orders x re-delivery of every prefix x every split of the sequence into StateBroadcastEvent batches, each schedule delivered to a fresh replica through NotifyMsg and compared with the reference LWW set - enumerated completely. (B) seeded scenarios in which three origin nodes whose clocks are offset by -10 s/0/+10 s (hook H3) issue 20-60 real Create/Delete/Set calls with partial gossip between them; (odd scenarios with bulk removals: DeleteSession, DeletePeer of the issuing or another node) their actual broadcasts are then delivered in shuffled, duplicated, batched schedules to followers; origins (after receiving everything) and followers must equal the LWW reference computed from the broadcast entries. distinct = (kind, variant, update list, schedule) / (scenario, schedule); non-trivial = >=2 updates touch the same key"
 	c.Assume("timestamps are distinct per key: with equal timestamps 'greatest' is undefined and an LWW set legitimately keeps the first arrival")
 	c.Assume("visible state = SessionMetadatas().All(), Subscriptions().All(), Topics().Get('#') with identity, value fields and LastAdded; tombstone stamps are not compared")
 	workers := runtime.NumCPU()
